@@ -299,10 +299,26 @@ func ServeFile(ctx *RequestContext, path string) {
 
 // escapeFilePath escapes the bytes of a file path that a URI parser gives a meaning to.
 func escapeFilePath(path string) string {
-	if !strings.ContainsAny(path, "%?#") {
+	plain := true
+	for i := 0; i < len(path); i++ {
+		if c := path[i]; c == '%' || c == '?' || c == '#' || c < 0x20 || c == 0x7f {
+			plain = false
+			break
+		}
+	}
+	if plain {
 		return path
 	}
-	return strings.NewReplacer("%", "%25", "?", "%3F", "#", "%23").Replace(path)
+	// (a URI with a raw control byte is refused as a whole by the parser)
+	var sb strings.Builder
+	for i := 0; i < len(path); i++ {
+		if c := path[i]; c == '%' || c == '?' || c == '#' || c < 0x20 || c == 0x7f {
+			sb.WriteString("%" + string("0123456789ABCDEF"[c>>4]) + string("0123456789ABCDEF"[c&0xf]))
+		} else {
+			sb.WriteByte(c)
+		}
+	}
+	return sb.String()
 }
 
 // NewRequestHandler returns new request handler with the given FS settings.
